@@ -68,6 +68,7 @@ pub fn render(v: &Value) -> Value {
   let rews = match s("r") {
     "r0" => json!(null),
     "r1" => json!([{"id": "R1", "rule": {"pattern": "abc"}, "fix": "xyz"}]),
+    "r3" => json!([{"id": "R1", "rule": {"pattern": "abc"}, "fix": "<$A>"}]),
     _ => json!([{"id": "R1", "rule": {"pattern": "abc"}}]),
   };
   let mut doc = json!({"id": "t", "language": "JavaScript", "rule": rule});
@@ -81,7 +82,8 @@ pub fn render(v: &Value) -> Value {
 
 /// expected value of a fix variable on SOURCE (documented in MC_C12: A = abc, X = substring(A) or rewritten A, ...)
 fn expected_fix(v: &Value) -> Value {
-  let x = if v["t"] == "t7" { "xyz" } else { "abc" };
+  // t7 rewrites A with R1: r1 replaces it by a constant, r3 by a text that quotes the enclosing rule's capture A
+  let x = if v["t"] == "t7" { if v["r"] == "r3" { "<abc>" } else { "xyz" } } else { "abc" };
   match v["f"].as_str().unwrap() {
     "f0" => json!(null),
     "f1" | "f5" => json!("bar(abc)"),
